@@ -22,6 +22,17 @@ CID = "C07"
 VO = ["props/C07.vo", "iso/IsoGenCor.vo"] + I.VO_MODEL
 KINDS = ("bytes", "sio", "bio")
 MAXV = 25
+GRAMMAR_NOTE = [
+    "guard of the inverse law = wf_fmt_text (coq/iso/IsoText.v): every date form x time form x fraction digits x any "
+    "single ASCII separator byte (or the configured one) x offset form, notation of date / time / offset varying "
+    "independently, 'Z' and 'z', negative zero offsets (read as UTC) - minus the OPEN finding",
+    "F-C07-ordinal-digit-sep: basic ordinal date YYYYDDD + DIGIT separator + time ('2014123412') is rejected with "
+    "ValueError although it has exactly one well-formed reading; theorem C07_isoparse_render_guarded carries exactly "
+    "the complement (fmt_ordinal_digit f = false), witness C07_isoparse_render_refuted_ordinal_digit",
+    "hour 24 is stated for an all-zero fraction; a non-zero digit beyond microseconds after 24:00:00 is the C20 "
+    "finding F-C20-2400-subus",
+]
+MIN_IN_GUARD = {"quick": 20000, "thorough": 500000}
 
 
 def _viol(lst, item):
@@ -64,6 +75,16 @@ def job(arg):
                             dt = (y, m, d, 23, 59, 59, 999999)
                             items.append(("iso", I.render_req(e, fmt, dt, off),
                                           {"fmt": fmt, "dt": dt, "off": off, "e": e}))
+        # the open finding F-C07-ordinal-digit-sep, deterministically: YYYYDDD + every digit as separator + every
+        # time form (inside the guard of the property text; reported as KNOWN-FINDING)
+        for (y, m, d) in dates[:8]:
+            for tf in range(7):
+                for sepd in range(48, 58):
+                    k = 3 if tf >= 5 else 0
+                    fmt = (None, 9, 1, tf, 0, k, sepd, [])
+                    dt = (y, m, d, 12, 30, 45, 123000)
+                    items.append(("iso", I.render_req(20, fmt, dt, (0, 0, 0, 0)),
+                                  {"fmt": fmt, "dt": dt, "off": (0, 0, 0, 0), "e": 20}))
     for i in range(n):
         bad = r.random() < 0.12
         u = r.random()
@@ -191,6 +212,7 @@ def job(arg):
         if len(out["samples"]) < 3 and dom and j % 97 == 0:
             out["samples"].append({"input": I.case_json(c1), "format": lab, "impl": r1, "model": rm,
                                    "spec_expected": exp, "other_kind": c2[2], "impl_other_kind": r2})
+    out["stream"] = tag
     return out
 
 
@@ -274,7 +296,7 @@ def main():
         return replay(argv[argv.index("--replay") + 1])
     tier = C.tier_from_argv(argv)
     t0 = time.time()
-    verdict = C.Verdict(CID)
+    verdict = C.Verdict(CID, I.MATCHERS)
     build_err = None
     try:
         C.ensure_built([I.AREA], VO)
@@ -292,8 +314,13 @@ def main():
            "spec_diff": 0, "kind_diff": 0, "pyref_checked": 0, "pyref_diff": 0, "spec_incoherent": 0}
     nontrivial, concrete, soft, samples = set(), [], [], []
     n_reg, cov_summary, iso_checked = 0, {"available": False}, 0
+    floors, calres = [], None
     try:
       if have_oracle:
+          # Cal.isocalendar / ord_of_ymd / ymd_of_ord are shared by model, renderer and weekdate_of: compare them
+          # with CPython here as well (quick: sampled chunks + boundaries, thorough: every ordinal)
+          import cal_corr
+          calres = cal_corr.run(full=(tier == "thorough"))
           o = C.Oracle(I.AREA)
           n_reg = regressions(o, verdict)
           iso_checked, iso_bad = datetime_isoformat_sanity(o, 2000 if tier == "quick" else 20000, C.rng("C07/isofmt"))
@@ -314,6 +341,7 @@ def main():
               for k in ("hist", "kinds", "entries"):
                   I.merge_hist(tot[k], res[k])
               nontrivial |= res["nontrivial"]
+              floors.append((res.get("stream", "?"), res["evals"], res["in_domain"]))
               concrete += res["concrete"]
               soft += res["soft"]
               samples += res["samples"]
@@ -322,9 +350,24 @@ def main():
         soft.append({"kind": "machinery failure during the correspondence run: %r" % (ex,), "input": None,
                      "traceback": traceback.format_exc()[-2000:]})
     concrete.sort(key=lambda p: len(p["input"]["codes"]))
-    for p in concrete[:5]:
-        verdict.violation(p, concrete=True)
-    if not concrete:
+    n_real = 0
+    for p in concrete:
+        if verdict.violation(p, concrete=True):
+            n_real += 1
+            if n_real >= 5:
+                break
+    # evaluation floors: a shard that ran empty shows nothing
+    for name, ev, dom_n in floors:
+        if ev == 0 or dom_n == 0:
+            soft.append({"kind": "machinery: shard %r produced %d evaluations / %d draws inside the guard "
+                                 "(floor: > 0 each)" % (name, ev, dom_n), "input": None})
+    if not floors or tot["in_domain"] < MIN_IN_GUARD[tier]:
+        soft.append({"kind": "machinery: only %d draws inside the guard (floor %d): the correspondence did not run"
+                             % (tot["in_domain"], MIN_IN_GUARD[tier]), "input": None})
+    if calres is None or calres.get("disagreements"):
+        soft.append({"kind": "calendar model coq/base/Cal.v differs from CPython datetime (harness/cal_corr.py): "
+                             "every week / ordinal theorem is relative to it", "input": None, "cal_corr": calres})
+    if not n_real:
         for p in soft[:3]:
             verdict.violation(p, concrete=False)
     if not props["ok"] and not verdict.violations:
@@ -340,7 +383,8 @@ def main():
                 "separator x offset form and value x boundary-biased datetime); the EXTRACTED SPEC renders it "
                 "(render_iso / render_iso_2400 / render_date / render_time++render_off / render_off) and the "
                 "implementation parses it as str and as one of bytes / StringIO / BytesIO (2 evaluations per draw). "
-                "non-trivial = inside the theorem's guard (wf_fmt && valid_dt ...); distinct = distinct "
+                "non-trivial = inside the guard of the property text (wf_fmt_text && valid_dt ...; the renderings of the open "
+                "finding F-C07-ordinal-digit-sep are inside it and are reported as KNOWN-FINDING); distinct = distinct "
                 "(entry point, configured separator, string), counted by a 64-bit hash set",
         "exhaustive": False,
         "samples": samples[:10],
@@ -355,17 +399,21 @@ def main():
                                               "isoformat_differ": len([s for s in soft if "isoformat" in s["kind"]])},
         "spec_recogniser_vs_expected_disagreements": tot["spec_incoherent"],
         "regression_corpus_cases": n_reg,
+        "shard_floors": [{"shard": n, "evaluations": e, "inside_guard": d} for n, e, d in floors],
+        "calendar_model_vs_cpython": calres,
+        "renderings_the_theorems_are_about": GRAMMAR_NOTE,
         "anchor_coverage_of_one_shard": cov_summary,
         "partial_theorems": partial,
         "model_tie": I.model_tie(build_err, props),
-        "only_differential_tested": ["str / bytes / stream glue of _takes_ascii (identity in the model)",
-                                     "tz.UTC / tz.tzoffset object identity (modelled as a tag + seconds)"],
+        "only_differential_tested": ["tz.UTC / tz.tzoffset object identity (modelled as a tag + seconds)",
+                                     "that io.StringIO / io.BytesIO .read() returns the characters written (the "
+                                     "model's InStream carries what read() returns)"],
         "known_findings_hit": verdict.known_hits,
     }
     C.write_evidence(CID, tier, t0, props, cov,
                      ["CPython datetime/date/time constructors and date + timedelta modelled by Cal.valid_ymd / "
                       "ord_of_ymd / ymd_of_ord (coq/base/Cal.v), not verified",
-                      "model <-> source: harness/gen_iso.py (fail-closed ast translator, accepted subset in its docstring / notes/iso.md) regenerates coq/gen/IsoGen.v from isoparser.py on every run and IsoGenThm.v proves gen_f = model_f; trusted: the translator, coq/iso/IsoGenLib.v, the AST-hash pins of _takes_ascii / __init__; the differential run ties the running bytecode and the glue",
+                      "model <-> source: harness/gen_iso.py (fail-closed ast translator, accepted subset in its docstring / notes/iso.md) regenerates coq/gen/IsoGen.v from isoparser.py on every run and IsoGenThm.v proves gen_f = model_f; the decorator _takes_ascii is translated too (input kinds str / bytes / stream -> gen_takes_ascii); trusted: the translator, the primitives of coq/iso/IsoGenLib.v (read_in, encode_ascii, py_int, ...), the AST-hash pins of isoparser.__init__, the module tail, the import block and the (unevaluated) arguments of raise ValueError(...); the differential run ties the running bytecode",
                       "regex [\\.,]([0-9]+) modelled by frac_match/span_digits"],
                      len(verdict.violations))
     print("C07 %s: obligations %d/%d, %d evaluations (%d inside guard, %d distinct), model-diff %d, kind-diff %d, "
